@@ -838,4 +838,391 @@ Section P.
     - intros st j m H. lia.
     - apply call_step. exact IH.
   Qed.
+
+  (* ---------------------------------------------------------------- top level *)
+  Definition Inv (st : state) : Prop := G st /\ RDs n st.
+
+  Lemma read_top_ok : forall st k, Inv st -> (k < n)%nat ->
+    let '(st', v) := read_top prog st k in
+    Inv st' /\ v = D st k /\ store st' = store st /\ alive st' = alive st.
+  Proof.
+    intros st k [HG HR] Hk. unfold read_top.
+    pose proof (rc_ok n (call_all n) st k n Hk Hk Hk HG HR) as H.
+    destruct (read_comp prog (callf prog n) None st k) as [st' v].
+    destruct H as (G1 & R1 & Ev & _ & _ & HS). split; [split; auto|]. split; auto. split; apply HS.
+  Qed.
+
+  Lemma G_only_dirty : forall st st1, G st -> only_dirty st st1 -> closed st st1 -> G st1.
+  Proof.
+    intros st st1 HG (E1 & E2 & E3 & E4 & E5 & E6 & E7 & E8 & M & _) HC. destruct HG.
+    assert (Hcl : forall i, dirty st1 i = false -> dirty st i = false).
+    { intros i H. destruct (dirty st i) eqn:E; auto. apply M in E. congruence. }
+    constructor; try rewrite E2; try rewrite E6; try rewrite E7; try rewrite E3; auto.
+    - intros i s x Hc H. unfold Dsrc. rewrite E1, E2. exact (g_clean_val0 i s x (Hcl i Hc) H).
+    - intros i k x Hc H. pose proof (g_clean_par0 i k x (Hcl i Hc) H) as Hk.
+      destruct (dirty st1 k) eqn:Ek; auto.
+      rewrite (HC k Hk Ek i (g_par_sub0 i _ x H)) in Hc. discriminate.
+  Qed.
+
+  Lemma notify_ok : forall st s, G st ->
+    let st1 := notify prog st s in
+    G st1 /\ only_dirty st st1 /\ (forall d, In d (subs st s) -> dirty st1 d = true).
+  Proof.
+    intros st s HG. unfold notify.
+    destruct (sd_fold n (sd_all n) (subs st s) st (g_alive _ HG)) as (O & Dd & C).
+    { intros c d H. split; [eapply g_subs_up; eauto|eapply g_subs_valid; eauto]. }
+    { intros d _. lia. }
+    split; [eapply G_only_dirty; eauto|]. split; auto.
+    intros d H. apply Dd; auto. eapply g_subs_valid; eauto.
+  Qed.
+
+  Lemma store_ok : forall st1 o nm v, G st1 -> RDs n st1 ->
+    (forall d, In d (subs st1 (SObs o nm)) -> dirty st1 d = true) ->
+    let st2 := upd_store st1 (fun o' n' => if (o' =? o) && (n' =? nm) then v else store st1 o' n') in
+    G st2 /\ RDs n st2.
+  Proof.
+    intros st1 o nm v HG HR Hd st2.
+    assert (HP : forall j, dirty st1 j = false -> forall s x, In (s, x) (flat (parents st1 j)) -> Dsrc st2 s = x).
+    { intro j. induction j as [j IH] using lt_wf_ind. intros Hc s x H.
+      destruct s as [o' nm'|k].
+      - unfold Dsrc, st2. simpl.
+        destruct ((o' =? o) && (nm' =? nm)) eqn:E.
+        + apply andb_true_iff in E. destruct E as [E1 E2]. apply Z.eqb_eq in E1. apply Z.eqb_eq in E2. subst.
+          rewrite (Hd j (g_par_sub _ HG j _ x H)) in Hc. discriminate.
+        + exact (g_clean_val _ HG j _ x Hc H).
+      - assert (Hkj : (k < j)%nat) by (eapply g_par_down; eauto).
+        assert (Hck : dirty st1 k = false) by (eapply g_clean_par; eauto).
+        assert (Hkn : (k < n)%nat) by (eapply g_clean_valid; eauto).
+        assert (Hfk : first st1 k = false) by (eapply g_clean_first; eauto).
+        pose proof (HR k Hkn Hfk) as HRk.
+        assert (H2 : den (alive st1) (store st2) k = value st1 k).
+        { apply HRk. intros s' x' H'. exact (IH k Hkj Hck s' x' H'). }
+        assert (H1 : den (alive st1) (store st1) k = value st1 k).
+        { apply HRk. intros s' x' H'. exact (g_clean_val _ HG k s' x' Hck H'). }
+        pose proof (g_clean_val _ HG j _ x Hc H) as H3. simpl in H3. unfold Dsrc. simpl.
+        transitivity (value st1 k); [exact H2|congruence]. }
+    split.
+    - destruct HG. constructor; auto. intros j s x Hc H. exact (HP j Hc s x H).
+    - intros j Hj Hf. exact (HR j Hj Hf).
+  Qed.
+
+  Lemma set_ok : forall b st o nm v st', Inv st -> set_obs prog b st o nm v = Some st' ->
+    Inv st' /\ alive st' = alive st /\
+    (forall o' n', store st' o' n' = if (o' =? o) && (n' =? nm) then v else store st o' n').
+  Proof.
+    intros b st o nm v st' [HG HR] H. unfold set_obs in H.
+    destruct (b && ps_mem o nm (ps st)); [discriminate|].
+    destruct (notify_ok st (SObs o nm) HG) as (G1 & O1 & D1).
+    set (st1 := notify prog st (SObs o nm)) in *.
+    assert (R1 : RDs n st1).
+    { destruct O1 as (_ & E2 & E3 & E4 & _ & E6 & _). intros j Hj Hf. rewrite E2, E4, E6. apply HR; auto. congruence. }
+    assert (Es : subs st1 = subs st) by apply O1.
+    destruct (store_ok st1 o nm v G1 R1) as (G2 & R2).
+    { intros d Hd. apply D1. rewrite <- Es. exact Hd. }
+    assert (Est : store st1 = store st) by apply O1.
+    assert (Eal : alive st1 = alive st) by apply O1.
+    destruct b; inversion H; subst st'; simpl.
+    - split; [split; auto|]. split; auto. intros. rewrite Est. reflexivity.
+    - split; [split; [apply G_ps; exact G2|exact R2]|]. split; auto. intros. rewrite Est. reflexivity.
+  Qed.
+
+  Lemma run_acts_ok : forall acts st, Inv st -> Inv (fst (run_acts prog acts st)).
+  Proof.
+    induction acts as [|a t IH]; intros st HI; simpl; auto.
+    destruct a as [o nm|k|o nm v].
+    - destruct (alive st o); apply IH; auto. destruct HI as [HG HR]. split; [apply G_ps; auto|exact HR].
+    - destruct ((k <? n)%nat && alive st (cown k)) eqn:E; [|apply IH; auto].
+      apply andb_true_iff in E. destruct E as [E _]. apply Nat.ltb_lt in E.
+      pose proof (read_top_ok st k HI E) as H. destruct (read_top prog st k) as [st' v]. simpl.
+      apply IH. apply H.
+    - destruct (alive st o); [|apply IH; auto].
+      destruct (set_obs prog true st o nm v) as [st1|] eqn:E; simpl; auto.
+      apply IH. eapply set_ok; eauto.
+  Qed.
+
+  Definition is_kill (x : op) : bool := match x with Kill _ => true | _ => false end.
+  Definition no_kill (ops : list op) : bool := forallb (fun x => negb (is_kill x)) ops.
+
+  Variable nobs : list nat.
+
+  Lemma step_ok : forall st x, Inv st -> is_kill x = false -> Inv (fst (step prog nobs st x)).
+  Proof.
+    intros st x HI Hk. destruct x as [o nm v|k|o|acts]; try discriminate; unfold step.
+    - destruct (alive st o); auto. destruct (set_obs prog false st o nm v) as [st1|] eqn:E; auto.
+      cbn [fst]. eapply set_ok; eauto.
+    - destruct ((k <? n)%nat && alive st (cown k)) eqn:E; auto.
+      apply andb_true_iff in E. destruct E as [E _]. apply Nat.ltb_lt in E.
+      pose proof (read_top_ok st k HI E) as H. destruct (read_top prog st k) as [st' v]. simpl. apply H.
+    - pose proof (run_acts_ok acts st HI) as H. destruct (run_acts prog acts st) as [st1 ok]. exact H.
+  Qed.
+
+  Lemma final_ok : forall ops st, Inv st -> no_kill ops = true -> Inv (final prog nobs st ops).
+  Proof.
+    induction ops as [|x t IH]; intros st HI Hn; simpl; auto.
+    simpl in Hn. apply andb_true_iff in Hn. destruct Hn as [H1 H2].
+    apply IH; auto. apply step_ok; auto. destruct (is_kill x); auto; discriminate.
+  Qed.
+
+  Lemma init_ok : forall init, Inv (init_state init).
+  Proof.
+    intro init. split.
+    - constructor; simpl; try discriminate; try contradiction; auto.
+      + intros j o l [].
+    - intros j Hj Hf. simpl in Hf. discriminate.
+  Qed.
+
+  Lemma install_ok : forall st, Inv st -> Inv (install prog st).
+  Proof.
+    intros st HI. unfold install.
+    assert (H : forall l st, Inv st -> (forall k, In k l -> (k < n)%nat) ->
+                Inv (fold_left (fun s k => fst (read_top prog s k)) l st)).
+    { induction l as [|k l IH]; intros s Hs Hl; simpl; auto.
+      apply IH; [|intros; apply Hl; right; auto].
+      pose proof (read_top_ok s k Hs (Hl k (or_introl eq_refl))) as H. destruct (read_top prog s k). apply H. }
+    apply H; auto. intros k Hk. apply in_seq in Hk. unfold ncomp. lia.
+  Qed.
+
+  (* never stale: after any history of assignments, reads and writer Computeds, reading computed k
+     returns what its function returns on the current store *)
+  Lemma never_stale : forall init ops k, no_kill ops = true -> (k < n)%nat ->
+    let st := final prog nobs (install prog (init_state init)) ops in
+    snd (read_top prog st k) = den (alive st) (store st) k.
+  Proof.
+    intros init ops k Hn Hk st.
+    assert (HI : Inv st) by (apply final_ok; auto; apply install_ok; apply init_ok).
+    pose proof (read_top_ok st k HI Hk) as H. destruct (read_top prog st k) as [st' v]. simpl. apply H.
+  Qed.
+
+  (* ... also through chains and inside every evaluation: whenever the invariant holds, an evaluation
+     returns the denotation *)
+  Lemma never_stale_state : forall st k, Inv st -> (k < n)%nat -> snd (read_top prog st k) = D st k.
+  Proof.
+    intros st k HI Hk. pose proof (read_top_ok st k HI Hk) as H. destruct (read_top prog st k). simpl. apply H.
+  Qed.
+
+  (* no spurious recomputation: if every value remembered from the last evaluation is the current
+     value of its source, the function is not run *)
+  Lemma no_spurious_call : forall f st j, (j < f)%nat -> (j < n)%nat -> Inv st -> first st j = false ->
+    (forall s x, In (s, x) (flat (parents st j)) -> Dsrc st s = x) ->
+    count (fst (callf prog f st j)) j = count st j.
+  Proof.
+    intros f st j Hjf Hjn [HG HR] Hf Hp. destruct f as [|f]; [lia|]. simpl.
+    destruct (dirty st j) eqn:Ed; simpl; auto. rewrite Hf.
+    pose proof (cmp_ok f (call_all f) j n (flat (parents st j)) st ltac:(lia) Hjn ltac:(lia) HG HR
+                  (fun k x H => g_par_down _ HG j k x H)) as H.
+    destruct (cmp_items prog (callf prog f) (flat (parents st j)) st) as [st1 ch].
+    destruct H as (G1 & R1 & S1 & C1 & C2).
+    destruct ch.
+    - destruct (C2 eq_refl) as [s [x [H1 H2]]]. exfalso. apply H2. apply Hp. exact H1.
+    - simpl. destruct S1 as (_ & _ & A3 & _). apply A3. lia.
+  Qed.
+
+  Lemma no_spurious : forall init ops k, no_kill ops = true -> (k < n)%nat ->
+    let st := final prog nobs (install prog (init_state init)) ops in
+    first st k = false ->
+    (forall s x, In (s, x) (flat (parents st k)) -> dsrc (alive st) (store st) s = x) ->
+    count (fst (read_top prog st k)) k = count st k.
+  Proof.
+    intros init ops k Hn Hk st Hf Hp.
+    assert (HI : Inv st) by (apply final_ok; auto; apply install_ok; apply init_ok).
+    unfold read_top, read_comp.
+    pose proof (no_spurious_call n st k Hk Hk HI Hf Hp) as H.
+    pose proof (call_all n st k n Hk Hk Hk (proj1 HI) (proj2 HI)) as H2.
+    destruct (callf prog n st k) as [st1 v]. simpl in H.
+    destruct H2 as (G1 & R1 & Ev & Dk & Vk & HS & Hc).
+    assert (En : (if first st k || negb (v =? value st k) then notify prog st1 (SComp k) else st1) = st1).
+    { destruct (first st k || negb (v =? value st k)) eqn:E; auto.
+      assert (Hdk : dirty st k = true).
+      { destruct (dirty st k) eqn:Ed; auto. destruct (Hc eq_refl) as [Hv' Hf']. rewrite <- Hv' in E.
+        rewrite Hf', Z.eqb_refl in E. discriminate. }
+      apply notify_id. eapply (subs_dirty_after st st1 k); eauto. apply HI. }
+    rewrite En. simpl. exact H.
+  Qed.
+
+  (* the converse: when the function is run, it is the first run or a remembered value differs *)
+  Lemma recompute_justified : forall st k, Inv st -> (k < n)%nat ->
+    count (fst (callf prog n st k)) k <> count st k ->
+    first st k = true \/ exists s x, In (s, x) (flat (parents st k)) /\ Dsrc st s <> x.
+  Proof.
+    intros st k HI Hk Hc. destruct (first st k) eqn:Ef; auto. right.
+    destruct (existsb (fun p => negb (Dsrc st (fst p) =? snd p)) (flat (parents st k))) eqn:E.
+    - apply existsb_exists in E. destruct E as [[s x] [H1 H2]]. exists s, x. split; auto.
+      simpl in H2. apply negb_true_iff in H2. apply Z.eqb_neq. exact H2.
+    - exfalso. apply Hc. apply no_spurious_call; auto.
+      intros s x H. destruct (Z.eq_dec (Dsrc st s) x) as [|Hne]; auto.
+      assert (existsb (fun p => negb (Dsrc st (fst p) =? snd p)) (flat (parents st k)) = true).
+      { apply existsb_exists. exists (s, x). split; auto. simpl. apply negb_true_iff. apply Z.eqb_neq. exact Hne. }
+      congruence.
+  Qed.
 End P.
+
+(* ================================================================== cycle detection *)
+Section Cyc.
+  Variable prog : list cdef.
+
+  (* liveness unchanged, PROCESSING_SIGNALS only grows *)
+  Definition pext (st st' : state) : Prop := alive st' = alive st /\ exists l, ps st' = l ++ ps st.
+
+  Lemma pext_refl : forall st, pext st st.
+  Proof. intro. split; auto. exists []. reflexivity. Qed.
+
+  Lemma pext_trans : forall a b c, pext a b -> pext b c -> pext a c.
+  Proof.
+    intros a b c [A1 [l1 A2]] [B1 [l2 B2]]. split; [congruence|]. exists (l2 ++ l1). rewrite B2, A2, app_assoc. reflexivity.
+  Qed.
+
+  Lemma pext_same : forall st st', alive st' = alive st -> ps st' = ps st -> pext st st'.
+  Proof. intros st st' H1 H2. split; auto. exists []. exact H2. Qed.
+
+  Lemma sd_pext : forall f st c, alive (set_dirty prog f st c) = alive st /\ ps (set_dirty prog f st c) = ps st.
+  Proof.
+    induction f as [|f IH]; intros st c; simpl; auto.
+    destruct (negb (c <? ncomp prog)%nat); auto. destruct (negb (alive st (cowner prog c))); auto.
+    destruct (dirty st c); auto.
+    assert (H : forall l s, alive (fold_left (set_dirty prog f) l s) = alive s /\ ps (fold_left (set_dirty prog f) l s) = ps s).
+    { induction l as [|d l IHl]; intros s; simpl; auto.
+      destruct (IHl (set_dirty prog f s d)) as [H1 H2]. destruct (IH s d) as [H3 H4]. split; congruence. }
+    apply (H (subs st (SComp c)) (upd_dirty st (updn (dirty st) c true))).
+  Qed.
+
+  Lemma notify_pext : forall st s, pext st (notify prog st s).
+  Proof.
+    intros st s. unfold notify. generalize (subs st s) as l. intro l. revert st.
+    induction l as [|d l IH]; intros st; simpl; [apply pext_refl|].
+    eapply pext_trans; [|apply IH]. destruct (sd_pext (ncomp prog) st d). apply pext_same; auto.
+  Qed.
+
+  Section E.
+    Variable call : state -> nat -> state * Z.
+    Hypothesis Hcall : forall st k, pext st (fst (call st k)).
+
+    Lemma rc_pext : forall cur st k, pext st (fst (read_comp prog call cur st k)).
+    Proof.
+      intros cur st k. unfold read_comp. pose proof (Hcall st k) as H. destruct (call st k) as [st1 v]. simpl in H.
+      set (st2 := match cur with Some j => add_parent prog st1 j (SComp k) v | None => st1 end).
+      assert (H2 : pext st1 st2) by (unfold st2; destruct cur; [apply pext_same; reflexivity|apply pext_refl]).
+      destruct (first st k || negb (v =? value st k)); simpl.
+      - eapply pext_trans; [exact H|]. eapply pext_trans; [exact H2|]. apply notify_pext.
+      - eapply pext_trans; eauto.
+    Qed.
+
+    Lemma ev_pext : forall j e st, pext st (fst (ev prog call j e st)).
+    Proof.
+      intros j. induction e; intros st; simpl.
+      - apply pext_refl.
+      - destruct (alive st o); simpl; [|apply pext_refl]. split; [reflexivity|]. exists [(o, nm)]. reflexivity.
+      - destruct ((k <? j)%nat && alive st (cowner prog k)); [apply rc_pext|apply pext_refl].
+      - pose proof (IHe1 st) as H1. destruct (ev prog call j e1 st) as [st1 va]. simpl in H1.
+        pose proof (IHe2 st1) as H2. destruct (ev prog call j e2 st1) as [st2 vb]. simpl in *.
+        eapply pext_trans; eauto.
+      - pose proof (IHe1 st) as H1. destruct (ev prog call j e1 st) as [st1 vc]. simpl in H1.
+        destruct (vc =? 0); eapply pext_trans; eauto.
+    Qed.
+
+    Lemma cmp_pext : forall l st, pext st (fst (cmp_items prog call l st)).
+    Proof.
+      induction l as [|[s old] t IH]; intros st; simpl; [apply pext_refl|].
+      destruct s as [o nm|k].
+      - destruct (store st o nm =? old); [apply IH|apply pext_refl].
+      - pose proof (rc_pext None st k) as H. destruct (read_comp prog call None st k) as [st1 v]. simpl in H.
+        destruct (v =? old); simpl; auto. eapply pext_trans; eauto.
+    Qed.
+  End E.
+
+  Lemma callf_pext : forall f st j, pext st (fst (callf prog f st j)).
+  Proof.
+    induction f as [|f IH]; intros st j; simpl; [apply pext_refl|].
+    destruct (negb (dirty st j)); [apply pext_refl|].
+    assert (H1 : pext st (fst (if first st j then (upd_first st (updn (first st) j false), true)
+                               else cmp_items prog (callf prog f) (flat (parents st j)) st))).
+    { destruct (first st j); simpl; [apply pext_same; reflexivity|apply cmp_pext; exact IH]. }
+    destruct (if first st j then (upd_first st (updn (first st) j false), true)
+              else cmp_items prog (callf prog f) (flat (parents st j)) st) as [st1 ch]. simpl in H1.
+    destruct ch; simpl.
+    - pose proof (ev_pext (callf prog f) IH j (d_expr (cdef_at prog j)) (remove_parents prog st1 j)) as H2.
+      destruct (ev prog (callf prog f) j (d_expr (cdef_at prog j)) (remove_parents prog st1 j)) as [stb v]. simpl in *.
+      eapply pext_trans; [exact H1|]. eapply pext_trans; [|apply pext_same; [|reflexivity]; reflexivity].
+      eapply pext_trans; [|exact H2]. apply pext_same; reflexivity.
+    - eapply pext_trans; [exact H1|]. apply pext_same; reflexivity.
+  Qed.
+
+  Lemma read_top_pext : forall st k, pext st (fst (read_top prog st k)).
+  Proof. intros. unfold read_top. apply rc_pext. intros. apply callf_pext. Qed.
+
+  Lemma set_inside_pext : forall st o nm v st1, set_obs prog true st o nm v = Some st1 -> pext st st1.
+  Proof.
+    intros st o nm v st1 H. unfold set_obs in H. destruct (true && ps_mem o nm (ps st)); [discriminate|].
+    inversion H; subst. simpl. pose proof (notify_pext st (SObs o nm)) as [H1 H2]. split; auto.
+  Qed.
+
+  Lemma ps_mem_pext : forall st st' o nm, pext st st' -> ps_mem o nm (ps st) = true -> ps_mem o nm (ps st') = true.
+  Proof.
+    intros st st' o nm [_ [l E]] H. unfold ps_mem in *. rewrite E, existsb_app, H. apply orb_true_r.
+  Qed.
+
+  (* once an observable is in the read set, any later assignment to it by the function is rejected *)
+  Lemma reject_after_read : forall o nm v acts st, alive st o = true -> ps_mem o nm (ps st) = true ->
+    In (AWrite o nm v) acts -> snd (run_acts prog acts st) = false.
+  Proof.
+    intros o nm v. induction acts as [|a t IH]; intros st Hal Hps Hin; [destruct Hin|].
+    assert (Hnext : forall st', pext st st' -> In (AWrite o nm v) t -> snd (run_acts prog t st') = false).
+    { intros st' Hp Ht. apply IH; auto.
+      - destruct Hp as [E _]. rewrite E. exact Hal.
+      - eapply ps_mem_pext; eauto. }
+    simpl. destruct a as [o' nm'|k|o' nm' v'].
+    - destruct Hin as [Hin|Hin]; [discriminate|].
+      destruct (alive st o'); apply Hnext; auto; try apply pext_refl.
+      split; [reflexivity|]. exists [(o', nm')]. reflexivity.
+    - destruct Hin as [Hin|Hin]; [discriminate|].
+      destruct ((k <? ncomp prog)%nat && alive st (cowner prog k)); apply Hnext; auto; try apply pext_refl.
+      apply read_top_pext.
+    - destruct Hin as [Hin|Hin].
+      + inversion Hin; subst. rewrite Hal. unfold set_obs. rewrite Hps. reflexivity.
+      + destruct (alive st o'); [|apply Hnext; auto; apply pext_refl].
+        destruct (set_obs prog true st o' nm' v') as [st1|] eqn:E; auto.
+        apply Hnext; auto. eapply set_inside_pext; eauto.
+  Qed.
+
+  Lemma cycle_rejected : forall o nm v pre mid post st, alive st o = true ->
+    snd (run_acts prog (pre ++ ARead o nm :: mid ++ AWrite o nm v :: post) st) = false.
+  Proof.
+    intros o nm v. induction pre as [|a t IH]; intros mid post st Hal.
+    - simpl. rewrite Hal. apply (reject_after_read o nm v); auto.
+      + simpl. unfold ps_mem. simpl. rewrite !Z.eqb_refl. reflexivity.
+      + apply in_or_app. right. left. reflexivity.
+    - simpl. destruct a as [o' nm'|k|o' nm' v'].
+      + destruct (alive st o'); apply IH; auto.
+      + destruct ((k <? ncomp prog)%nat && alive st (cowner prog k)); [|apply IH; auto].
+        apply IH. destruct (read_top_pext st k) as [E _]. rewrite E. exact Hal.
+      + destruct (alive st o'); [|apply IH; auto].
+        destruct (set_obs prog true st o' nm' v') as [st1|] eqn:E; auto.
+        apply IH. destruct (set_inside_pext _ _ _ _ _ E) as [E2 _]. rewrite E2. exact Hal.
+  Qed.
+
+  (* a rejected assignment leaves the store alone (the ValueError is raised before notify/store) *)
+  Lemma rejected_write_atomic : forall st o nm v, set_obs prog true st o nm v = None -> ps_mem o nm (ps st) = true.
+  Proof.
+    intros st o nm v H. unfold set_obs in H. destruct (ps_mem o nm (ps st)); auto. simpl in H. discriminate.
+  Qed.
+End Cyc.
+
+Lemma final_snoc : forall prog nobs pre st x,
+  final prog nobs st (pre ++ [x]) = fst (step prog nobs (final prog nobs st pre) x).
+Proof.
+  intros prog nobs. induction pre as [|y t IH]; intros st x; simpl; auto.
+Qed.
+
+Lemma store_after_assign : forall prog nobs init pre o nm v,
+  no_kill pre = true ->
+  let st := final prog nobs (install prog (init_state init)) pre in
+  let st' := final prog nobs (install prog (init_state init)) (pre ++ [Assign o nm v]) in
+  forall o' n', store st' o' n' = if (o' =? o) && (n' =? nm) then v else store st o' n'.
+Proof.
+  intros prog nobs init pre o nm v Hn st st' o' n'.
+  assert (HI : Inv prog st) by (apply final_ok; auto; apply install_ok; apply init_ok).
+  unfold st'. rewrite final_snoc. fold st. unfold step.
+  rewrite (g_alive _ _ (proj1 HI) o).
+  destruct (set_obs prog false st o nm v) as [st1|] eqn:E.
+  - simpl. destruct (set_ok prog false st o nm v st1 HI E) as (_ & _ & H). apply H.
+  - unfold set_obs in E. simpl in E. discriminate.
+Qed.
